@@ -414,19 +414,20 @@ func (d *DirectoryOutputHandler) Load(
 
 	// WaitGroup to wait for all goroutines to finish
 	var waitGroup sync.WaitGroup
-	errChan := make(chan error, len(tree.Children))
+	// Every file is downloaded by its own goroutine and each of them may fail,
+	// so the errors are collected without ever blocking the sender.
+	downloadErrors := &downloadErrorCollector{}
 	// Recursively load the directory structure
-	if err := d.loadDirectoryRecursive(ctx, dirPath, tree.Root, childrenMap, progress, &waitGroup, errChan); err != nil {
+	if err := d.loadDirectoryRecursive(ctx, dirPath, tree.Root, childrenMap, progress, &waitGroup, downloadErrors); err != nil {
+		// Do not leave download goroutines behind
+		waitGroup.Wait()
 		return fmt.Errorf("failed to load directory structure: %w", err)
 	}
 
 	// Wait for all goroutines to finish
 	waitGroup.Wait()
-	close(errChan)
-	for err := range errChan {
-		if err != nil {
-			return err
-		}
+	if err := downloadErrors.first(); err != nil {
+		return err
 	}
 
 	if progress != nil {
@@ -434,6 +435,26 @@ func (d *DirectoryOutputHandler) Load(
 	}
 
 	return nil
+}
+
+// downloadErrorCollector records the first error of concurrently running file downloads.
+type downloadErrorCollector struct {
+	mutex sync.Mutex
+	err   error
+}
+
+func (c *downloadErrorCollector) add(err error) {
+	c.mutex.Lock()
+	defer c.mutex.Unlock()
+	if c.err == nil {
+		c.err = err
+	}
+}
+
+func (c *downloadErrorCollector) first() error {
+	c.mutex.Lock()
+	defer c.mutex.Unlock()
+	return c.err
 }
 
 // loadDirectoryRecursive recursively reconstructs a directory from the Directory message
@@ -444,7 +465,7 @@ func (d *DirectoryOutputHandler) loadDirectoryRecursive(
 	childrenMap map[string]*gen.Directory,
 	progress *worker.ProgressTracker,
 	waitGroup *sync.WaitGroup,
-	errChan chan error,
+	downloadErrors *downloadErrorCollector,
 ) error {
 	// Create all files
 	for _, fileNode := range dir.Files {
@@ -457,7 +478,7 @@ func (d *DirectoryOutputHandler) loadDirectoryRecursive(
 			console.GetLogger(ctx).Debugf("loading file for directory output %s from digest %s", filePath, digest)
 			err := d.downloadFile(ctx, digest, filePath, fileNode.IsExecutable, progress)
 			if err != nil {
-				errChan <- fmt.Errorf("failed to download file %s: %v", filePath, err)
+				downloadErrors.add(fmt.Errorf("failed to download file %s: %v", filePath, err))
 			}
 		}(filePath, fileNode.Digest.Hash)
 	}
@@ -478,7 +499,7 @@ func (d *DirectoryOutputHandler) loadDirectoryRecursive(
 		}
 
 		// Recursively load the subdirectory
-		if err := d.loadDirectoryRecursive(ctx, subDirPath, childDir, childrenMap, progress, waitGroup, errChan); err != nil {
+		if err := d.loadDirectoryRecursive(ctx, subDirPath, childDir, childrenMap, progress, waitGroup, downloadErrors); err != nil {
 			return err
 		}
 	}
